@@ -55,6 +55,9 @@ def worker(pid, tier, seed, shard, nshards, out_path, budget_s):
     res = {"evals": 0, "cases": 0, "fps": set(), "distinct_extra": 0, "violations": [],
            "samples": [], "obs": {}, "decided": 0, "errors": [], "truncated": False,
            "exhaustive": True}
+    res["mech_counts"] = {}
+    known = load_known()
+    new_count = 0
     try:
         for i, case in enumerate(mod.cases(tier, seed)):
             if i % nshards != shard:
@@ -74,7 +77,10 @@ def worker(pid, tier, seed, shard, nshards, out_path, budget_s):
             res["cases"] += 1
             res["evals"] += r.get("evals", 1)
             res["decided"] += r.get("decided", 0)
-            if "distinct" in r:
+            if "fps" in r:
+                res["fps"].update(r["fps"])
+                res["distinct_extra"] += r.get("distinct", 0)
+            elif "distinct" in r:
                 res["distinct_extra"] += r["distinct"]
             elif r.get("decided", 0) > 0:
                 fp = r.get("fp") or H.fingerprint(case)
@@ -82,14 +88,17 @@ def worker(pid, tier, seed, shard, nshards, out_path, budget_s):
             for k, v in r.get("obs", {}).items():
                 res["obs"][k] = res["obs"].get(k, 0) + v
             for v in r.get("violations", []):
-                if len(res["violations"]) < MAX_VIOL_PER_SHARD:
-                    res["violations"].append({"case": case, "mechanism": v["mechanism"],
+                m = v["mechanism"]
+                res["mech_counts"][m] = res["mech_counts"].get(m, 0) + 1
+                if res["mech_counts"][m] <= 3:
+                    res["violations"].append({"case": case, "mechanism": m,
                                               "detail": H.jsonable(v.get("detail")),
                                               "log": v.get("log")})
-                res["obs"]["violations_total"] = res["obs"].get("violations_total", 0) + 1
+                if not known_match(known, pid, m):
+                    new_count += 1
             if len(res["samples"]) < MAX_SAMPLES and r.get("decided", 0) > 0:
                 res["samples"].append(H.jsonable(r.get("sample", case)))
-            if len(res["violations"]) >= MAX_VIOL_PER_SHARD:
+            if new_count >= MAX_VIOL_PER_SHARD:
                 # enough witnesses; do not burn the budget on a broken tree
                 res["truncated"] = True
                 res["exhaustive"] = False
@@ -148,7 +157,7 @@ def run_check(pid, tier, seed, procs):
 
     agg = {"evals": 0, "cases": 0, "fps": set(), "distinct_extra": 0, "violations": [],
            "samples": [], "obs": {}, "decided": 0, "errors": [], "truncated": False,
-           "exhaustive": True}
+           "exhaustive": True, "mech_counts": {}}
     inconclusive = []
     for i, rc, so, se in results:
         if rc == "timeout":
@@ -163,6 +172,8 @@ def run_check(pid, tier, seed, procs):
             agg[k] += r[k]
         agg["fps"] |= r["fps"]
         agg["violations"] += r["violations"]
+        for m, c in r.get("mech_counts", {}).items():
+            agg["mech_counts"][m] = agg["mech_counts"].get(m, 0) + c
         agg["errors"] += r["errors"]
         agg["truncated"] |= r["truncated"]
         agg["exhaustive"] &= r["exhaustive"]
@@ -179,8 +190,7 @@ def run_check(pid, tier, seed, procs):
     for v in agg["violations"]:
         k = known_match(known, pid, v["mechanism"])
         if k:
-            known_hits.setdefault(v["mechanism"], [k, 0, v])
-            known_hits[v["mechanism"]][1] += 1
+            known_hits.setdefault(v["mechanism"], [k, agg["mech_counts"].get(v["mechanism"], 1), v])
         else:
             new_viol.append(v)
 
@@ -220,7 +230,8 @@ def run_check(pid, tier, seed, procs):
         },
         "assumptions": list(getattr(mod, "ASSUMPTIONS", [])),
         "wall_s": round(wall, 3),
-        "violations": len(new_viol),
+        "violations": sum(agg["mech_counts"].get(v["mechanism"], 1)
+                          for v in {v["mechanism"]: v for v in new_viol}.values()),
     }
     os.makedirs(os.path.join(VERIF, "evidence"), exist_ok=True)
     with open(os.path.join(VERIF, "evidence", f"{pid}.json"), "w") as f:
@@ -237,8 +248,10 @@ def run_check(pid, tier, seed, procs):
             path = write_replay(pid, tier, seed, v)
             print(f"VIOLATION property={pid} replay={path}")
             print(f"  mechanism={v['mechanism']} detail={json.dumps(v['detail'])[:600]}")
+        mc = {v["mechanism"]: agg["mech_counts"].get(v["mechanism"], 1) for v in new_viol}
+        print(f"MECHANISMS {json.dumps(mc, sort_keys=True)}")
         print(f"SUMMARY property={pid} tier={tier} seed={seed} verdict=violated "
-              f"new_violations={len(new_viol)} evaluations={agg['evals']} wall={wall:.1f}s")
+              f"new_violations={sum(mc.values())} evaluations={agg['evals']} wall={wall:.1f}s")
         return 1
     if inconclusive:
         for r in inconclusive[:8]:
